@@ -1018,6 +1018,13 @@ impl Display for ExpectedType {
 
 impl Value {
     fn check_type(&self, _vm: &VmGreenThread, tag: ValueTag) {
+        #[cfg(feature = "verif")]
+        if self.1 == tag && self.1.is_pointer() {
+            let header = unsafe { &*(self.0 as *const ObjectHeader) };
+            if header.poisoned {
+                crate::verif::report_uaf("access", &format!("{}", self.1));
+            }
+        }
         if cfg!(debug_assertions) && self.1 != tag {
             _vm.fail(VmErrorKind::WrongType(tag.to_expected_type(), self.1));
         }
@@ -1218,10 +1225,24 @@ struct ObjectHeader {
     kind: ObjectKind,
     visited: bool,
     no_gc: bool,
+    #[cfg(feature = "verif")]
+    poisoned: bool,
 }
 
 impl ObjectHeader {
     unsafe fn dealloc(&mut self, heap_size: &mut usize) {
+        #[cfg(feature = "verif")]
+        {
+            if !self.poisoned {
+                crate::verif::note_freed(self.nbytes());
+            }
+            if crate::verif::quarantine_on() && !self.poisoned {
+                *heap_size -= self.nbytes();
+                self.poisoned = true;
+                crate::verif::quarantine_push(self as *mut ObjectHeader as usize);
+                return;
+            }
+        }
         let kind = self.kind;
         match kind {
             ObjectKind::String => {
@@ -1288,6 +1309,15 @@ impl ObjectHeader {
     }
 }
 
+/// Really free an object that `dealloc` put into quarantine.
+#[cfg(feature = "verif")]
+pub(crate) unsafe fn verif_free_quarantined(p: usize) {
+    let header = unsafe { &mut *(p as *mut ObjectHeader) };
+    debug_assert!(header.poisoned);
+    let mut dummy = usize::MAX / 2;
+    unsafe { header.dealloc(&mut dummy) };
+}
+
 #[derive(Copy, Clone)]
 #[repr(C)]
 enum ObjectKind {
@@ -1327,6 +1357,8 @@ impl StructObject {
                             GcState::Marking | GcState::Sweeping { .. } => true,
                         },
                         no_gc: false,
+                        #[cfg(feature = "verif")]
+                        poisoned: false,
                     },
                     len,
                 },
@@ -1401,6 +1433,8 @@ impl ArrayObject {
                 GcState::Marking | GcState::Sweeping { .. } => true,
             },
             no_gc: false,
+            #[cfg(feature = "verif")]
+            poisoned: false,
         };
         let b = Box::new(ArrayObject { header, data });
         let arr = Box::leak(b);
@@ -1449,6 +1483,8 @@ impl ChannelObject {
                 GcState::Marking | GcState::Sweeping { .. } => true,
             },
             no_gc: false,
+            #[cfg(feature = "verif")]
+            poisoned: false,
         };
         let b = Box::new(ChannelObject { header, data });
         let chan = Box::leak(b);
@@ -1506,6 +1542,8 @@ impl EnumObject {
                 GcState::Marking | GcState::Sweeping { .. } => true,
             },
             no_gc: false,
+            #[cfg(feature = "verif")]
+            poisoned: false,
         };
         let b = Box::new(EnumObject { header, tag, val });
         let variant = Box::leak(b);
@@ -1542,6 +1580,8 @@ impl StringObject {
                 GcState::Marking | GcState::Sweeping { .. } => true,
             },
             no_gc: false,
+            #[cfg(feature = "verif")]
+            poisoned: false,
         };
         let b = Box::new(StringObject { header, str });
         let str = Box::leak(b);
@@ -1563,6 +1603,8 @@ impl StringObject {
             kind: ObjectKind::String,
             visited: false,
             no_gc: true,
+            #[cfg(feature = "verif")]
+            poisoned: false,
         };
         let b = Box::new(StringObject { header, str });
         let str = Box::leak(b);
@@ -2517,6 +2559,10 @@ impl VmGreenThread {
         }
 
         let header = unsafe { v.get_object_header() };
+        #[cfg(feature = "verif")]
+        if header.poisoned {
+            crate::verif::report_uaf("mark", &format!("{}", v.1));
+        }
         if header.no_gc {
             return;
         }
